@@ -49,4 +49,94 @@ PROPS["C02"] = dict(
     level_note="Trusted: Lean kernel; the hand-written model is tied by differential testing, not by translation; float<->int conversion at the API boundary is outside the model (ops carry the int64 coordinates).",
 )
 
+SNAP_TRUSTED = [
+    "Model.Route/Model.Ring/Model.Snap/Model.SnapF are hand-written mirrors of pointindex and snap; tied by the snap correspondence (real snap.SnapPolygon in-process against the compiled model, "
+    "same int64 vertices, outputs canonicalised to pixel indices by a bit-exact centre lookup) and by the model-functional-vs-reference stream (functional model against the line-by-line transcription)",
+    "float seams outside the model: FromGeomOrd/ToGeomOrd at the API boundary (ops carry the quantised int64 vertices; every returned float must be bit-exactly a centre), "
+    "float orientation/area/ray tests of snap on rings of pixel centres (exact in the model; arbitrary invalid polygons on non-dyadic real grids are therefore not compared with the model, oracles still run)",
+    "go-ordered-map and go-sortedmap are modelled as association lists with the semantics read from their sources",
+]
+
+def snapprop(pid, level, module, theorems, streams, technique, level_text, level_note, extra_trusted=(), design=None):
+    PROPS[pid] = dict(level=level, technique=technique, module=module, translators=[], theorems=theorems, streams=streams,
+                      trusted=SNAP_TRUSTED + list(extra_trusted), design_ref=design or f"DESIGN.md §6 {pid}", level_text=level_text, level_note=level_note)
+
+FUNC = "model-functional-vs-reference"
+
+snapprop("C09", "proof", "Texel.Properties.C09",
+    ["Texel.C09.C09_accept_iff", "Texel.C09.C09_outside_rejected", "Texel.C09.C09_snapped_only_inside", "Texel.C09.F2_witness"],
+    ["snap-outside", "addr"],
+    "Lean 4 theorems (a vertex gets an address iff inside the half-open extent; any outside vertex makes SnapPolygon fail / return empty) + differential correspondence at 1-unit distances",
+    "Theorems for every grid (any origin, resolution, depth), every polygon and every distance: deepestAddr accepts exactly the half-open extent (floor division), and one outside vertex decides the whole call "
+    "(error by default, empty result with ignore-outside-grid). Tied to the code by the addr stream (public InsertPoint against the model, vertices 1 unit / res-1 / res / res+1 outside each side and corner) and the snap-outside stream.",
+    "Trusted: Lean kernel; hand-written model tied by differential testing; quantisation below 1e-10 (FromGeomOrd truncates toward zero) is outside the model: the property is stated on the quantised integers.")
+
+snapprop("C08", "proof", "Texel.Properties.C08",
+    ["Texel.C08.processLevels_keys", "Texel.C08.C08_keys", "Texel.C08.processLevels_entry", "Texel.C08.C08_alone_eq_together"],
+    ["snap", FUNC],
+    "Lean 4 theorems on the per-level functional model (result keys are requested; a level's entry is what processLevel computes for it alone) + alone-vs-together oracle on round grids",
+    "Theorems for every polygon, configuration and grid: keys are requested levels, and with the index fixed the entry for a level does not depend on the other requested levels. That the index depth "
+    "(which follows the deepest requested id) does not influence a shallower level on a round grid is decided by the oracle: every requested id is also snapped alone on synthetic dyadic grids and NetherlandsRDNewQuad and compared.",
+    "Trusted: Lean kernel; the per-level structure of the model is tied to the code's per-level maps by the snap correspondence; depth-independence on round grids is validated, not proved.")
+
+snapprop("C05", "proof", "Texel.Properties.C05",
+    ["Texel.C05.C05_no_empty_list", "Texel.C05.C05_no_keep_no_appended", "Texel.C05.C05_keep_extends"],
+    ["snap", FUNC],
+    "Lean 4 theorems on the functional model (absent rather than empty; keep-points-and-lines only appends single-ring polygons) + exact ring-structure oracle on every implementation answer",
+    "Theorems for all polygons (valid or not): a collapsed tile matrix is absent, never an empty list; with keep-points-and-lines every tile matrix present without it carries the same polygons followed by single-ring polygons. "
+    "Ring-level clauses (shell first, orientation, no closing duplicate, no vertex twice, >= 3 vertices) are decided by the oracle on every implementation answer, valid and arbitrary polygons, synthetic and real grids (the F4 repair lives there), each case with and without keep.",
+    "Trusted: Lean kernel; cleanupNewRing/dedupeInnersOuters/matchInnersToPolygons are black boxes in these proofs; ring-level clauses are validated by oracle + correspondence, not proved.")
+
+snapprop("C07", "proof", "Texel.Properties.C07",
+    ["Texel.C07.levelAcc_indep", "Texel.C07.C07_flag", "Texel.C07.reversePolys_involutive", "Texel.C07.C07_flag_presence"],
+    ["snap", FUNC],
+    "Lean 4 theorems (the reverse-winding flag only reverses the assembled polygon rings; presence unchanged) + repetition / fresh-process / reversed-input oracles",
+    "Theorems: with the reverse flag a level carries the same polygons with every ring reversed followed by the same appended points/lines, and is present iff it is present without the flag. Determinism of the implementation "
+    "(Go randomises map iteration) and independence of the written ring direction are decided by the harness: every case 3x in-process, once in a fresh process, with random subsets of rings reversed.",
+    "Trusted: Lean kernel; the model is a function by construction, so determinism of the code itself rests on the correspondence and the repetition runs; ring-reversal invariance is validated, not proved.")
+
+snapprop("C03", "proof", "Texel.Properties.C03",
+    ["Texel.C03.C03_index_in_range", "Texel.C03.C03_centre_in_pixel", "Texel.C03.C03_centre_exact", "Texel.C03.C03_centre_deepest", "Texel.C03.C03_round", "Texel.C03.C03_deviation", "Texel.C03.C03_pixel_size"],
+    ["snap", "quad"],
+    "Lean 4 theorems on the integer centre formula (in its pixel, exact middle, equals the ideal centre on round extents, within the reported deviation otherwise) + bit-exact centre canonicalisation of every returned float",
+    "Theorems for every grid/level/pixel: the coordinate handed out is inside its pixel, exactly its middle above the deepest level, equal to minX+(k+1/2)*XSpan/2^l when the extent divides evenly, and otherwise left of the ideal centre by less than XSpan mod 2^depth "
+    "(the deviation the tool reports). The harness checks on every accepted built-in set x ids that each returned float is bit-for-bit ToGeomOrd of such an integer, that level = id+log2(tileWidth)+4 and pixel = cellSize/16, and the distance to the ideal centre against DeviationStats.",
+    "Trusted: Lean kernel; float conversion (ToGeomOrd) and tms20's float extent are outside the model; the cellSize constants in the JSON documents are rounded (checked to 1e-6 relative).")
+
+snapprop("C06", "other", "Texel.Properties.C06",
+    ["Texel.C06.C06_no_points_found_unreachable", "Texel.C06.C06_keys_encodable", "Texel.C06.C06_index_total"],
+    ["snap", "kmp", "split", FUNC],
+    "Lean 4 theorems for the panic sites that are closed (no-points-found, MustToZ up to level 32, index construction) + recover/watchdog exploration with adversarial sequences, function-level kmp/split correspondence",
+    "Partial proof + exploration: three panic sites are proved unreachable for every in-grid polygon; that kmpDeduplicate/splitRing never reach their index, slice and stack panics and always terminate is NOT proved "
+    "(the model carries them as Except errors and fuel) and is explored: arbitrary and adversarially repetitive sequences under recover and a 20 s watchdog, exhaustive small alphabets in the thorough tier. Known finding F7 (panic above level 32).",
+    "Assumes nothing beyond the trusted base; a panic or hang found on any generated input is reported with the input.",
+    extra_trusted=["totality of kmpDeduplicate and splitRing is explored, not proved"])
+
+snapprop("C01", "other", "Texel.Properties.C01",
+    ["Texel.C01.properCross_symm", "Texel.C01.orient_swap", "Texel.C01.properCross_shared_endpoint", "Texel.C01.C01_ingredient_routing", "Texel.C01.C01_ingredient_shrink"],
+    ["snap", FUNC],
+    "partial Lean 4 proof (exact routing, shrinking lemma) + exact no-proper-crossing oracle on every implementation answer, model tied by correspondence",
+    "Partial proof + verified-oracle exploration: the statement C01_statement is formalised; proved are the exact routing (C02) and the algebraic shrinking lemma; the geometric core of snap rounding and 'output edges are routed runs' are open. "
+    "Every generated valid polygon's output is checked edge pair by edge pair with exact integer orientation tests. Known finding F5 (spike removal invents an edge when a centre is visited >= 3 times).",
+    "The geometric snap-rounding argument is not machine-checked; assurance for C01 is exploration with an exact oracle plus the correspondence to a model whose routing is proved.",
+    extra_trusted=["SnapRoundingNoCross and OutputEdgesAreRoutedRuns are not proved"])
+
+snapprop("C04", "other", "Texel.Properties.C04",
+    ["Texel.C04.C04_routed_vertex_is_input_pixel", "Texel.C04.C04_address_contains_vertex", "Texel.C04.C04_dedup_vertices"],
+    ["snap", FUNC],
+    "partial Lean 4 proof (routed vertices are input-vertex pixels; spike removal invents no vertex) + exact half-pixel-distance and coverage oracles on every implementation answer",
+    "Partial proof + verified-oracle exploration: (a) is proved for the routed chains and for spike removal (not yet through splitRing/assembly); (b) half-pixel edge distance and (c) coverage beyond one pixel are decided per case by exact rational oracles "
+    "(5 points per output edge; up to 150 locations per case). Known finding F5.",
+    "The deformation/winding-parity argument behind (b),(c) is not machine-checked.",
+    extra_trusted=["edge distance and coverage are explored with exact oracles, not proved"])
+
+snapprop("C18", "other", "Texel.Properties.C18",
+    ["Texel.C18.C18_boundary_exists", "Texel.C18.C18_dedup_subset"],
+    ["snap", FUNC],
+    "partial Lean 4 proof (routed boundary exists; spike removal only removes) + exact routed-run / hole-containment / signed-area oracle on cases whose model chains visit each centre at most twice",
+    "Partial proof + verified-oracle exploration: the routed boundary (the model's chains, routing proved exact) is computed for every case; for (polygon, level) pairs with max visits <= 2 the three conclusions are checked exactly on the implementation's output. "
+    "The cancellation argument of kmpDeduplicate under max visits <= 2 is not proved.",
+    "kmp_removes_cancelling_pairs is open; the oracle decides each generated case.",
+    extra_trusted=["conclusions (a),(b),(c) are explored with exact oracles, not proved"])
+
 NOT_CLAIMED = {}
